@@ -5,6 +5,7 @@ import (
 	"go/token"
 	"go/types"
 	"sort"
+	"strconv"
 	"strings"
 
 	"golang.org/x/tools/go/ssa"
@@ -338,7 +339,17 @@ func ruleC11(c *Ctx) {
 		}
 		for _, is := range issues {
 			key := fk + ":" + is.key
-			if why, ok := c11Exceptions[key]; ok {
+			base := key
+			if i := strings.LastIndex(base, "#"); i > 0 {
+				if _, err := strconv.Atoi(base[i+1:]); err == nil {
+					base = base[:i] // the same construct written at another site (e.g. an epilogue spliced at each exit)
+				}
+			}
+			why, ok := c11Exceptions[key]
+			if !ok {
+				why, ok = c11Exceptions[base]
+			}
+			if ok {
 				c.excepted("P", key, is.pos, why)
 				continue
 			}
